@@ -2623,8 +2623,9 @@ class AppendLoops(ast.NodeTransformer):
             if isinstance(st, ast.For) and st.orelse and always_exits(st.orelse) and isinstance(st.target, ast.Name) and len(st.body) == 1 \
                     and isinstance(st.body[0], ast.If) and not st.body[0].orelse and len(st.body[0].body) == 1 and isinstance(st.body[0].body[0], ast.Break):
                 x = st.target.id
-                if not any(isinstance(n_, ast.Name) and n_.id == x for s_ in stmts[i + 1:] for n_ in ast.walk(s_)):
-                    # the element found is not used afterwards: only whether one exists matters
+                loads_here = sum(1 for n_ in ast.walk(st) if isinstance(n_, ast.Name) and n_.id == x and isinstance(n_.ctx, ast.Load))
+                if self.uses.get(x, (0, 0))[1] <= loads_here and not any(isinstance(n_, ast.Name) and n_.id == x for s_ in stmts[i + 1:] for n_ in ast.walk(s_)):
+                    # the element found is read nowhere else in the function (also not behind an enclosing statement): only whether one exists matters
                     anyc = ast.Call(func=ast.Name(id="any", ctx=ast.Load()), keywords=[],
                                     args=[ast.GeneratorExp(elt=st.body[0].test, generators=[ast.comprehension(target=ast.Name(id=x, ctx=ast.Store()), iter=st.iter, ifs=[], is_async=0)])])
                     out.append(ast.copy_location(ast.If(test=ast.UnaryOp(op=ast.Not(), operand=anyc), body=st.orelse, orelse=[]), st))
